@@ -210,6 +210,25 @@ func c05AfterFailure(x *X) {
 
 func runC05(x *X) {
 	c05AfterFailure(x)
+	wide := WideGrids()
+	x.Explore("wide", ExploreOpts{Bound: "4 tables of 10-13 columns (ragged, zero-cell row, separator, header added last, no header) x one hostile text in each column position in turn"}, func(c *Chooser) {
+		g0 := wide[c.Choose(len(wide))]
+		g := &Grid{HasHeader: g0.HasHeader, Header: append([]string{}, g0.Header...), HeaderLast: g0.HeaderLast}
+		for _, r := range g0.Rows {
+			g.Rows = append(g.Rows, GridRow{Sep: r.Sep, Cells: append([]string{}, r.Cells...)})
+		}
+		col := c.Choose(g.NCols() + 1) // 0 = none
+		if col > 0 {
+			g.EachCell(func(kind string, row, cl int, p *string) {
+				if cl == col-1 {
+					*p = `q",` + "\n" + *p
+				}
+			})
+		}
+		x.Transition(1)
+		x.Nontrivial(fmt.Sprint(g.ShapeKey(), col))
+		c05Check(x, c, g, []string{"ten_or_more_columns"})
+	})
 	maxLen := x.Pick(3, 4)
 	x.Explore("field-bytes", ExploreOpts{ShardDepth: 2, Bound: fmt.Sprintf("7 positions x all strings of <=%d atoms over %d atoms", maxLen, len(c05Atoms))}, func(c *Chooser) {
 		p := c05Positions[c.Choose(len(c05Positions))]
